@@ -1425,6 +1425,8 @@ impl<'a, 'b> AuthorizedAccess<'a, 'b> {
         allowed: Option<types::DataValue>,
         unit: Option<String>,
     ) -> Result<i32, RegistrationError> {
+        #[cfg(feature = "verif-hooks")]
+        crate::verif::yield_point(20, "sec Db W").await;
         self.broker
             .database
             .write()
@@ -1445,6 +1447,8 @@ impl<'a, 'b> AuthorizedAccess<'a, 'b> {
     }
 
     pub async fn with_read_lock<T>(&self, f: impl FnOnce(&DatabaseReadAccess) -> T) -> T {
+        #[cfg(feature = "verif-hooks")]
+        crate::verif::yield_point(21, "sec Db R").await;
         f(&self
             .broker
             .database
@@ -1454,6 +1458,8 @@ impl<'a, 'b> AuthorizedAccess<'a, 'b> {
     }
 
     pub async fn get_id_by_path(&self, name: &str) -> Option<i32> {
+        #[cfg(feature = "verif-hooks")]
+        crate::verif::yield_point(22, "sec Db R").await;
         self.broker
             .database
             .read()
@@ -1464,6 +1470,8 @@ impl<'a, 'b> AuthorizedAccess<'a, 'b> {
     }
 
     pub async fn get_datapoint(&self, id: i32) -> Result<Datapoint, ReadError> {
+        #[cfg(feature = "verif-hooks")]
+        crate::verif::yield_point(23, "sec Db R").await;
         self.broker
             .database
             .read()
@@ -1474,6 +1482,8 @@ impl<'a, 'b> AuthorizedAccess<'a, 'b> {
     }
 
     pub async fn get_datapoint_by_path(&self, name: &str) -> Result<Datapoint, ReadError> {
+        #[cfg(feature = "verif-hooks")]
+        crate::verif::yield_point(24, "sec Db R").await;
         self.broker
             .database
             .read()
@@ -1484,6 +1494,8 @@ impl<'a, 'b> AuthorizedAccess<'a, 'b> {
     }
 
     pub async fn get_metadata(&self, id: i32) -> Option<Metadata> {
+        #[cfg(feature = "verif-hooks")]
+        crate::verif::yield_point(25, "sec Db R").await;
         self.broker
             .database
             .read()
@@ -1494,6 +1506,8 @@ impl<'a, 'b> AuthorizedAccess<'a, 'b> {
     }
 
     pub async fn get_metadata_by_path(&self, path: &str) -> Option<Metadata> {
+        #[cfg(feature = "verif-hooks")]
+        crate::verif::yield_point(26, "sec Db R").await;
         self.broker
             .database
             .read()
@@ -1504,6 +1518,8 @@ impl<'a, 'b> AuthorizedAccess<'a, 'b> {
     }
 
     pub async fn get_entry_by_path(&self, path: &str) -> Result<Entry, ReadError> {
+        #[cfg(feature = "verif-hooks")]
+        crate::verif::yield_point(27, "sec Db R").await;
         self.broker
             .database
             .read()
@@ -1514,6 +1530,8 @@ impl<'a, 'b> AuthorizedAccess<'a, 'b> {
     }
 
     pub async fn get_entry_by_id(&self, id: i32) -> Result<Entry, ReadError> {
+        #[cfg(feature = "verif-hooks")]
+        crate::verif::yield_point(28, "sec Db R").await;
         self.broker
             .database
             .read()
@@ -1524,6 +1542,8 @@ impl<'a, 'b> AuthorizedAccess<'a, 'b> {
     }
 
     pub async fn for_each_entry(&self, f: impl FnMut(EntryReadAccess)) {
+        #[cfg(feature = "verif-hooks")]
+        crate::verif::yield_point(29, "sec Db R").await;
         self.broker
             .database
             .read()
@@ -1534,6 +1554,8 @@ impl<'a, 'b> AuthorizedAccess<'a, 'b> {
     }
 
     pub async fn map_entries<T>(&self, f: impl FnMut(EntryReadAccess) -> T) -> Vec<T> {
+        #[cfg(feature = "verif-hooks")]
+        crate::verif::yield_point(30, "sec Db R").await;
         self.broker
             .database
             .read()
@@ -1548,6 +1570,8 @@ impl<'a, 'b> AuthorizedAccess<'a, 'b> {
         &self,
         f: impl FnMut(EntryReadAccess) -> Option<T>,
     ) -> Vec<T> {
+        #[cfg(feature = "verif-hooks")]
+        crate::verif::yield_point(31, "sec Db R").await;
         self.broker
             .database
             .read()
@@ -1563,7 +1587,11 @@ impl<'a, 'b> AuthorizedAccess<'a, 'b> {
         updates: impl IntoIterator<Item = (i32, EntryUpdate)>,
     ) -> Result<(), Vec<(i32, UpdateError)>> {
         let mut errors = Vec::new();
+        #[cfg(feature = "verif-hooks")]
+        crate::verif::yield_point(1, "req Db W").await;
         let mut db = self.broker.database.write().await;
+        #[cfg(feature = "verif-hooks")]
+        crate::verif::event(1, "acq Db W");
         let mut db_write = db.authorized_write_access(self.permissions);
         let mut lag_updates: HashMap<String, ()> = HashMap::new();
 
@@ -1589,8 +1617,12 @@ impl<'a, 'b> AuthorizedAccess<'a, 'b> {
             // to a read lock in order to ensure a consistent state while
             // notifying subscribers (no writes in between)
             let db = db.downgrade();
+            #[cfg(feature = "verif-hooks")]
+            let _verif_db = crate::verif::held(1, "down Db", "rel Db");
 
             // Notify
+            #[cfg(feature = "verif-hooks")]
+            crate::verif::yield_point(2, "sec Subs R").await;
             match self
                 .broker
                 .subscriptions
@@ -1609,7 +1641,11 @@ impl<'a, 'b> AuthorizedAccess<'a, 'b> {
         };
 
         if !lag_updates.is_empty() {
+            #[cfg(feature = "verif-hooks")]
+            crate::verif::yield_point(3, "req Db W").await;
             let mut db = self.broker.database.write().await;
+            #[cfg(feature = "verif-hooks")]
+            let _verif_db = crate::verif::held(3, "acq Db W", "rel Db");
             let mut db_write = db.authorized_write_access(self.permissions);
             for x in lag_updates {
                 if db_write.update_entry_lag_to_be_equal(x.0.as_str()).is_ok() {}
@@ -1618,6 +1654,8 @@ impl<'a, 'b> AuthorizedAccess<'a, 'b> {
 
         // Cleanup closed subscriptions
         if cleanup_needed {
+            #[cfg(feature = "verif-hooks")]
+            crate::verif::yield_point(4, "sec Subs W").await;
             self.broker.subscriptions.write().await.cleanup();
         }
 
@@ -1658,12 +1696,18 @@ impl<'a, 'b> AuthorizedAccess<'a, 'b> {
 
         {
             // Send everything subscribed to in an initial notification
+            #[cfg(feature = "verif-hooks")]
+            crate::verif::yield_point(5, "req Db R").await;
             let db = self.broker.database.read().await;
+            #[cfg(feature = "verif-hooks")]
+            let _verif_db = crate::verif::held(5, "acq Db R", "rel Db");
             if subscription.notify(None, &db).await.is_err() {
                 warn!("Failed to create initial notification");
             }
         }
 
+        #[cfg(feature = "verif-hooks")]
+        crate::verif::yield_point(6, "sec Subs W").await;
         self.broker
             .subscriptions
             .write()
@@ -1684,7 +1728,11 @@ impl<'a, 'b> AuthorizedAccess<'a, 'b> {
         &self,
         query: &str,
     ) -> Result<impl Stream<Item = QueryResponse>, QueryError> {
+        #[cfg(feature = "verif-hooks")]
+        crate::verif::yield_point(7, "req Db R").await;
         let db_read = self.broker.database.read().await;
+        #[cfg(feature = "verif-hooks")]
+        let _verif_db = crate::verif::held(7, "acq Db R", "rel Db");
         let db_read_access = db_read.authorized_read_access(self.permissions);
 
         let compiled_query = query::compile(query, &db_read_access);
@@ -1700,6 +1748,8 @@ impl<'a, 'b> AuthorizedAccess<'a, 'b> {
                 };
 
                 // Send the initial execution of query
+                #[cfg(feature = "verif-hooks")]
+                crate::verif::yield_point(8, "sec Subs W").await;
                 match subscription.notify(None, &db_read).await {
                     Ok(_) => self
                         .broker
@@ -1726,6 +1776,8 @@ impl<'a, 'b> AuthorizedAccess<'a, 'b> {
             self.can_write_actuator_target(&vss_id).await?;
         }
 
+        #[cfg(feature = "verif-hooks")]
+        crate::verif::yield_point(9, "sec Subs R").await;
         let provided_vss_ids: Vec<i32> = self
             .broker
             .subscriptions
@@ -1752,6 +1804,8 @@ impl<'a, 'b> AuthorizedAccess<'a, 'b> {
             actuation_provider,
             permissions: self.permissions.clone(),
         };
+        #[cfg(feature = "verif-hooks")]
+        crate::verif::yield_point(10, "sec Subs W").await;
         self.broker
             .subscriptions
             .write()
@@ -1788,7 +1842,11 @@ impl<'a, 'b> AuthorizedAccess<'a, 'b> {
         &self,
         actuation_changes: Vec<ActuationChange>,
     ) -> Result<(), (ActuationError, String)> {
+        #[cfg(feature = "verif-hooks")]
+        crate::verif::yield_point(11, "req Subs R").await;
         let read_subscription_guard = self.broker.subscriptions.read().await;
+        #[cfg(feature = "verif-hooks")]
+        let _verif_subs = crate::verif::held(11, "acq Subs R", "rel Subs");
         let actuation_subscriptions = &read_subscription_guard.actuation_subscriptions;
 
         for actuation_change in &actuation_changes {
@@ -1849,7 +1907,11 @@ impl<'a, 'b> AuthorizedAccess<'a, 'b> {
         self.can_write_actuator_target(&vss_id).await?;
         self.validate_actuator_update(&vss_id, data_value).await?;
 
+        #[cfg(feature = "verif-hooks")]
+        crate::verif::yield_point(12, "req Subs R").await;
         let read_subscription_guard = self.broker.subscriptions.read().await;
+        #[cfg(feature = "verif-hooks")]
+        let _verif_subs = crate::verif::held(12, "acq Subs R", "rel Subs");
         let opt_actuation_subscription = &read_subscription_guard
             .actuation_subscriptions
             .iter()
@@ -2048,9 +2110,21 @@ impl DataBroker {
         });
     }
 
+    /// One iteration of the housekeeping loop started by `start_housekeeping_task`
+    /// (verification hook: lets a harness run housekeeping deterministically).
+    #[cfg(feature = "verif-hooks")]
+    pub async fn verif_housekeeping_step(&self) {
+        crate::verif::yield_point(14, "sec Subs W").await;
+        self.subscriptions.write().await.cleanup();
+    }
+
     pub async fn shutdown(&self) {
         // Drain subscriptions
+        #[cfg(feature = "verif-hooks")]
+        crate::verif::yield_point(13, "req Subs W").await;
         let mut subscriptions = self.subscriptions.write().await;
+        #[cfg(feature = "verif-hooks")]
+        let _verif_subs = crate::verif::held(13, "acq Subs W", "rel Subs");
         subscriptions.clear();
 
         // Signal shutdown
